@@ -13,3 +13,4 @@ CONSTANTS
   PruneNoStart = TRUE
 SPECIFICATION Spec
 INVARIANT Inv_Faithful
+INVARIANT Inv_Repr
